@@ -72,3 +72,19 @@ Definition run_order (inp : list Z * list string * list Z) : V :=
       VL [ VZ (flags_to_Z (snd r));
            VL (map (fun b => VL (map VHex b)) (bufs (fst r))) ]
   end.
+
+(* --- suite "gate": (endpoint kinds, datagrams as hex in arrival order).  The
+   harness interleaves the reader and the NewEndpoint calls by blocking inside
+   the match functions; in the end every endpoint has been created, every
+   datagram dispatched, and a MatchAll endpoint created last collects what is
+   still pending.  The buffers of such a final state do not depend on the
+   interleaving (c27_order_quiescent), so one complete schedule is run. --- *)
+Definition run_gate (inp : list Z * list string) : V :=
+  match inp with
+  | (kinds, pkts) =>
+      let ms := map kind_matcher kinds ++ [match_all] in
+      let ps := map hex_decode pkts in
+      let k := List.length kinds in
+      let s := Mux.run (init ms ps) (repeat 0%nat (2 * List.length ps + 1)%nat ++ seq 1 (S k)) in
+      VL (map (fun b => VL (map VHex b)) (bufs s))
+  end.
